@@ -530,9 +530,9 @@ impl Property for SolverProp {
         match self.aspect {
             Aspect::Answers => format!("{}. Oracle: reference DFS solver; answers compared in order as variants, then solve_all strings. Non-trivial = reference run had a goal succeed more than once (real backtrack) and used a rule clause; distinct by program text.", common),
             Aspect::Cut => format!("{} and `!` at any position. Oracle: reference solver with Suiron's documented cut. Non-trivial = a cut executed while its call had an untried clause, or pruned a disjunction alternative, or its continuation then failed, or it suppressed a later answer of the call; distinct by program text.", common),
-            Aspect::Not => format!("{} and not(G). Oracle: reference solver. Non-trivial = in one run not(...) both succeeded and failed; distinct by program text.", common),
-            Aspect::Output => format!("{} plus print/print_list/nl, cut and not. Oracle: captured stdout per answer equals the reference's output events per answer. Non-trivial = an output goal executed more often than it occurs in the text (backtracking) or output was written in a branch abandoned after the last answer; distinct by program text.", common),
-            Aspect::Exhausted => format!("{} with all features; after the first None the query is asked 3 more times. Oracle: every re-ask returns None and writes nothing. Non-trivial = query had >=1 answer and the program contains not or a disjunction; distinct by program text.", common),
+            Aspect::Not => format!("{} and not(G), one in five doubled to not(not(G)); text-presentable programs are also solved from their source text (parse_rule). Oracle: reference solver. Non-trivial = in one run not(...) both succeeded and failed; distinct by program text.", common),
+            Aspect::Output => format!("{} plus print/print_list/nl (print_list also over lists with two to four chained bound tails), cut and not. Oracle: captured stdout per answer equals the reference's output events per answer. Non-trivial = an output goal executed more often than it occurs in the text (backtracking) or output was written in a branch abandoned after the last answer; distinct by program text.", common),
+            Aspect::Exhausted => format!("{} with all features; after the first None the query is asked 3 more times; one case in six also through successive solve() calls on one node. Oracle: every re-ask returns None and writes nothing; solve() gives the query's number of answers, then `No more.` four times. Non-trivial = query had >=1 answer and the program contains not or a disjunction; distinct by program text.", common),
             Aspect::Renaming => format!("{} with all features; each program is re-solved under 4 alpha-renamings of every clause (query's names reused, same names everywhere, long non-ASCII names, rotated names). Oracle: identical answers (variants) and identical output. Non-trivial = a clause variable was renamed to a query variable name and the query has a non-ground answer or >=2 answers; distinct by program text.", common),
         }
     }
